@@ -107,6 +107,8 @@ def check_trace(prog, trace, mdl, part, extra=False, idnmsgs=None, src="hist", f
             tld = int(op[1])
         elif op[0] == "a":
             allow = mdl.default_allow if op[1] == "d" else int(op[1:], 16)
+            if allow >= 1 << 31:
+                allow -= 1 << 32               # the field is an int: the driver's strtol result is converted the same way
         elif op == "s":
             rfc, sr = st[1], st[2]
             cnt["setup"] += 1
